@@ -275,12 +275,23 @@ impl std::error::Error for Eof {}
 pub struct CutReader<'a> {
     pub data: &'a [u8],
     pub pos: usize,
-    pub end: usize,
+    /// the stream ends at `base + off`; `base` and `width` are concrete, `off < width` may be symbolic
+    pub base: usize,
+    pub off: usize,
+    pub width: usize,
 }
 
 impl<'a> CutReader<'a> {
+    /// a stream cut at the concrete position `end`
     pub fn new(data: &'a [u8], end: usize) -> Self {
-        Self { data, pos: 0, end }
+        Self { data, pos: 0, base: end, off: 0, width: 1 }
+    }
+
+    /// a stream cut somewhere in the window `base .. base + width` (`off` symbolic): reads that end
+    /// before the window succeed and reads that end after it fail *concretely*; only the reads
+    /// that straddle the window have a symbolic outcome
+    pub fn window(data: &'a [u8], base: usize, off: usize, width: usize) -> Self {
+        Self { data, pos: 0, base, off, width }
     }
 }
 
@@ -310,7 +321,15 @@ impl<'a> std::io::Read for CutReader<'a> {
                 i += 1;
             }
         }
-        if beyond_data || start + n > self.end {
+        let e = start + n;
+        let cut = if e <= self.base {
+            false
+        } else if e > self.base + self.width - 1 {
+            true
+        } else {
+            e > self.base + self.off
+        };
+        if beyond_data || cut {
             // a boxed (heap) error rather than the bit-packed `io::Error::from(ErrorKind)`
             return Err(std::io::Error::new(std::io::ErrorKind::UnexpectedEof, Eof(1)));
         }
